@@ -548,3 +548,186 @@ def regenerate(which=("options", "templates")):
 if __name__ == "__main__":
     d = regenerate()
     print("changed:", d["changed"])
+
+
+# =========================================================================== shared helpers
+# (used by harness/props/c13.py and c20.py)
+import contextlib
+import hashlib as _hashlib
+
+
+@contextlib.contextmanager
+def hermetic_options(user_json=None, pwd_json=None):
+    """Run with a private XDG_CONFIG_HOME and cwd (optionally holding ffcx_options.json files).
+
+    Yields (xdg_dir, cwd_dir). Restores cwd, environment, the `_load_options` cache, the ffcx logger
+    level and the warnings->logging redirection on exit, and removes the directories.
+    """
+    import json
+    import logging
+    import shutil
+    import tempfile
+    import warnings
+
+    import ffcx.options
+
+    root = Path(tempfile.mkdtemp(prefix="ffcxverif_names_"))
+    xdg, cwd = root / "xdg", root / "cwd"
+    (xdg / "ffcx").mkdir(parents=True)
+    cwd.mkdir()
+    if user_json is not None:
+        (xdg / "ffcx" / "ffcx_options.json").write_text(json.dumps(user_json))
+    if pwd_json is not None:
+        (cwd / "ffcx_options.json").write_text(json.dumps(pwd_json))
+    old_cwd = os.getcwd()
+    old_xdg = os.environ.get("XDG_CONFIG_HOME")
+    lg = logging.getLogger("ffcx")
+    old_level = lg.level
+    old_show = warnings.showwarning
+    old_capture = logging._warnings_showwarning
+    try:
+        os.environ["XDG_CONFIG_HOME"] = str(xdg)
+        os.chdir(cwd)
+        ffcx.options._load_options.cache_clear()
+        yield xdg, cwd
+    finally:
+        os.chdir(old_cwd)
+        if old_xdg is None:
+            os.environ.pop("XDG_CONFIG_HOME", None)
+        else:
+            os.environ["XDG_CONFIG_HOME"] = old_xdg
+        ffcx.options._load_options.cache_clear()
+        lg.setLevel(old_level)
+        warnings.showwarning = old_show
+        logging._warnings_showwarning = old_capture
+        shutil.rmtree(root, ignore_errors=True)
+
+
+class CaptureSha1:
+    """Record every string handed to `hashlib.sha1` *as seen from ffcx.naming*."""
+
+    def __enter__(self):
+        import ffcx.naming
+
+        self.strings = []
+        self._orig = ffcx.naming.hashlib
+        outer = self
+
+        class _Shim:
+            def __getattr__(self, name):
+                return getattr(_hashlib, name)
+
+            def sha1(self, data=b"", **kw):
+                outer.strings.append(bytes(data).decode("utf-8"))
+                return _hashlib.sha1(data, **kw)
+
+        ffcx.naming.hashlib = _Shim()
+        return self
+
+    def __exit__(self, *a):
+        import ffcx.naming
+
+        ffcx.naming.hashlib = self._orig
+
+
+class _NamesOnly(Exception):
+    pass
+
+
+def jit_names(objs, kind="form", options=None, **kw):
+    """Run the REAL jit.compile_forms / compile_expressions up to the cache lookup (no code
+    generation, no C compiler): returns (module_name, object_names, [pre-hash strings], objs_after).
+    """
+    import ffcx.codegeneration.jit as jit
+
+    def stop(module_name, object_names, cache_dir, timeout):
+        raise _NamesOnly(module_name, list(object_names))
+
+    orig = jit.get_cached_module
+    jit.get_cached_module = stop
+    lst = list(objs)
+    try:
+        with CaptureSha1() as cap:
+            try:
+                fn = jit.compile_forms if kind == "form" else jit.compile_expressions
+                fn(lst, options=dict(options or {}), cache_dir="/nonexistent/ffcx-verif-names", **kw)
+            except _NamesOnly as e:
+                return e.args[0], e.args[1], list(cap.strings), lst
+        raise RuntimeError("jit did not reach the cache lookup")
+    finally:
+        jit.get_cached_module = orig
+
+
+def expression_signature(expr):
+    """UFL signature of an expression with the renumbering of ffcx.naming.compute_signature
+    (UFL-level input of the model; mirrors naming.py lines 38-63)."""
+    import ufl
+
+    coeffs = ufl.algorithms.extract_coefficients(expr)
+    consts = ufl.algorithms.analysis.extract_constants(expr)
+    args = ufl.algorithms.analysis.extract_arguments(expr)
+    rn = {}
+    rn.update((c, i) for i, c in enumerate(coeffs))
+    rn.update((c, i) for i, c in enumerate(consts))
+    rn.update((c, i) for i, c in enumerate(args))
+    domains = []
+    for c in coeffs:
+        domains.append(*ufl.domain.extract_domains(c))
+    for a in args:
+        domains.append(*ufl.domain.extract_domains(a))
+    for gc in ufl.algorithms.analysis.extract_type(expr, ufl.classes.GeometricQuantity):
+        domains.append(*ufl.domain.extract_domains(gc))
+    for c in consts:
+        domains.append(*ufl.domain.extract_domains(c))
+    domains = ufl.algorithms.analysis.unique_tuple(domains)
+    rn.update((d, i) for i, d in enumerate(domains))
+    return ufl.algorithms.signature.compute_expression_signature(expr, rn)
+
+
+def model_env():
+    """(version, ufcx.h hash) computed by the harness itself."""
+    import ffcx
+    import ffcx.codegeneration
+
+    p = Path(ffcx.codegeneration.__file__).resolve().parent / "ufcx.h"
+    with open(p) as f:
+        h = _hashlib.sha1(f.read().encode("utf-8")).hexdigest()
+    return str(ffcx.__version__), h
+
+
+def sexp_env():
+    v, h = model_env()
+    return f"(env {sexp_str(v)} {sexp_str(h)})"
+
+
+def sexp_points(a) -> str:
+    """ndarray -> model points; arrays outside the modelled shape/dtype travel as opaque repr text."""
+    if isinstance(a, np.ndarray) and a.ndim == 2 and a.dtype in (np.float64, np.float32) and a.size > 0 \
+            and np.all(np.isfinite(a)):
+        rows = []
+        for r in a:
+            cells = []
+            for x in r:
+                n, d = float(x).as_integer_ratio()
+                cells.append(f"({n} {d.bit_length() - 1})")
+            rows.append("(" + " ".join(cells) + ")")
+        return f"(points {'true' if a.dtype == np.float32 else 'false'} " + " ".join(rows) + ")"
+    return f"(repr {sexp_str(repr(a))})"
+
+
+def sexp_items(d: dict) -> str:
+    return " ".join(f"({sexp_str(str(k))} {sexp_scalar(scalar(v))})" for k, v in d.items())
+
+
+def sexp_compile(args, debug) -> str:
+    import sysconfig
+
+    return (
+        "(" + " ".join(sexp_str(a) for a in args) + ") "
+        + sexp_scalar(scalar(debug)) + " "
+        + sexp_scalar(scalar(sysconfig.get_config_var("CFLAGS"))) + " "
+        + sexp_scalar(scalar(sysconfig.get_config_var("SOABI")))
+    )
+
+
+C_IDENT = re.compile(r"^[A-Za-z_][A-Za-z0-9_]*$")
